@@ -6,7 +6,7 @@ arbitrary join orders and jitter) is a multi-node liveness property and is NOT d
 the master-side contracts of spec/mesh.py (lookup replies, release)."""
 from pyvc.cdef import Contract, LoopSpec
 from pyvc.schema import Int, Bool, Const, Bytes, ByteArray, Obj, OneOf
-from pyvc.specrt import implies, ite, oracle_int, require, assume, class_attr, set_class_attr
+from pyvc.specrt import implies, ite, oracle_int, require, assume, class_attr, set_class_attr, clock_now, clock_ns_of
 from spec.net_ref import valid_node, valid_address
 from spec.net_state import node_ok
 from spec.c07 import req_update, havoc_update, fixed_cfg, abs_begin, begin_effects, begin_havoc, oracle_bytes
@@ -262,6 +262,11 @@ def inv_renew(self, total_requests, request_count):
     return node_ok(self) and self._addr == DEFAULT and 0 <= total_requests and total_requests <= 9 and 0 <= request_count and request_count <= 3
 
 
+def var_deadline_s(end_timer):
+    """time left until a deadline kept in float seconds (`timeout + time.monotonic()`), on the ghost clock"""
+    return clock_ns_of(end_timer) - clock_now()
+
+
 def havoc_renew(self):
     havoc_update(self)
 
@@ -286,7 +291,7 @@ POL_RENEW["mixins:NetworkMixin._begin"] = "ref:spec.c07:abs_begin"
 CONTRACTS.append(
     Contract("C17.renew_address", NM + ".renew_address", {"self": nm_schema(node_id=Int(1, 255)), "timeout": Int(0, 100)},
              requires=[R + "req_renew"], ensures=[("joined_or_unassigned", R + "ens_renew")], raises=(), policy=POL_RENEW,
-             loops={(NM + ".renew_address", 0): LoopSpec(R + "inv_renew", havoc=[R + "havoc_renew"], frame=R + "renew_fixed")},
+             loops={(NM + ".renew_address", 0): LoopSpec(R + "inv_renew", havoc=[R + "havoc_renew"], frame=R + "renew_fixed", variant=R + "var_deadline_s")},
              props=["C17", "C07", "C15"], replayable=False))
 
 
